@@ -21,6 +21,7 @@
 -/
 import RtrModel.PfxTable
 import RtrModel.Spki
+import RtrModel.Generated.Constants
 
 namespace Rtr
 namespace Alloc
@@ -480,8 +481,9 @@ def Item.isP4 : Item → Bool | .p4 .. => true | _ => false
 def Item.isP6 : Item → Bool | .p6 .. => true | _ => false
 def Item.isKey : Item → Bool | .key .. => true | _ => false
 
-/-- `TEMPORARY_PDU_STORE_INCREMENT_VALUE` -/
-def storeIncr : Nat := 100
+/-- `TEMPORARY_PDU_STORE_INCREMENT_VALUE`: the value extracted from the tree under test (a temporary
+    PDU store grows by this many elements whenever it is full) -/
+def storeIncr : Nat := Gen.TEMPORARY_PDU_STORE_INCREMENT_VALUE
 
 /-- fill (`n…`) and capacity (`s…`) of the three temporary PDU arrays -/
 structure Bufs where
